@@ -89,7 +89,7 @@ theorem eff_eq (s : State) (hp : PlainHoldNothing s) : ∀ f,
       simp only [Gen.taskEffectivePriority, Gen.taskPriority, holdingLocks, minOpt, priorityValue, hl,
         filterMap_id_map, effT_succ, foldl_min_minList]
       simp only [State.graph]
-      split <;> simp_all [min_if]
+      split <;> simp_all <;> grind
     · intro k
       simp only [Gen.lockEffectivePriority, waitersOf, minOpt, effL_succ, foldl_append_map, List.nil_append]
       by_cases he : (s.locks k).waiters = []
